@@ -100,7 +100,7 @@ pub fn boundary_cases() -> Vec<Vec<Entry>> {
 pub fn run(o: &Opts) {
     let mut st = Stats::new();
     let mut sh = Shards::new(&o.out, o.shards, &header("Classify_C01"));
-    st.rule = "ledger text generated from a tree (1-5 transactions of 1-6 postings; explicit/omitted/assigned amounts; 1-3 of 5 commodities; zero and negative values; @/@@ costs; {}/{{}} lots; parenthesised expressions; format declarations; sums on half-unit rounding boundaries) plus an enumerated boundary set (residual shape x sign x rounding); run through report::process on a FakeFileSystem; non-trivial = the deciding transaction reached check_balance or amount deduction; distinct by ledger text".into();
+    st.rule = "ledger text generated from a tree (1-5 transactions of 1-6 postings; explicit/omitted/assigned amounts; 1-3 of 5 commodities; zero and negative values; @/@@ costs; {}/{{}} lots, one in eight written with a minus sign; parenthesised expressions; format declarations; sums on half-unit rounding boundaries) plus an enumerated boundary set (residual shape x sign x rounding); run through report::process on a FakeFileSystem; non-trivial = the deciding transaction reached check_balance or amount deduction; distinct by ledger text".into();
     st.assumptions.push("no total price (@@, {{}}) on an amount that is a zero produced by an expression (rust_decimal keeps a sign bit on zero that the exact-rational model does not represent)".into());
     st.assumptions.push("literal mantissas below 10^7 with scale <= 3, products of at most three factors: every intermediate Decimal is exact".into());
     let (corpus, replay) = corpus_entries(&o.corpus, &o.extra);
@@ -114,6 +114,7 @@ pub fn run(o: &Opts) {
         let mut r = Rng::new(o.seed, 101);
         let n = if o.thorough { 40000 } else { 2500 };
         let mut b = Bias::default_bias();
+        b.neg_exch_pct = 12; // `@@ -1,000 USD`: a total only follows the sign of the amount
         for k in 0..n {
             if k % 4 == 0 {
                 b.unbalanced_pct = 60;
@@ -121,6 +122,7 @@ pub fn run(o: &Opts) {
             } else {
                 b = Bias::default_bias();
                 b.wrong_assert_pct = 3;
+                b.neg_exch_pct = 12;
             }
             let es = gen_ledger(&mut r, &b);
             emit_ledger_case(&mut sh, &mut st, "C01", &es, &nontrivial, "random");
